@@ -277,3 +277,107 @@ def spec_rule_evaluate(ck):
         ex.prove(s, 'C02/evaluate/filter-consulted-iff-present', z3.And(nev <= 1, (has_filter == BV(1, 64)) == (nev == 1)))
     ck.absorb(ex, 'Rule::evaluate', finals)
     ck.bounds['Rule::evaluate'] = 'any rule (with/without filter), any filter outcome (Ok(true)/Ok(false)/Err)'
+
+
+# =========================================================================== cidr_match (rules/script_ext.rs)
+
+def spec_cidr_match(ck):
+    """cidr_match(ip, cidr) == contains(parse(cidr), parse(ip)); false when either does not parse.  `contains` of the cidr
+    crate is the reference for CIDR containment (trusted); what is checked is that the filter function hands it exactly
+    the parsed address and returns its verdict."""
+    cands = [f for f in ck.db.by_method.get('call', []) if f.params and f.params[0][1].strip() == '&CidrMatch']
+    if len(cands) != 1:
+        ck.add('CidrMatch::call', 'undecided', 'anchor_missing: %d candidates' % len(cands))
+        return
+    fn = ck.target(cands[0])
+    ex = ck.engine(loop_bound=4)
+    ex.benign_havoc = BENIGN
+    st = State()
+    s_ip = Bytes.symbolic('ip_text', 'string')
+    s_cidr = Bytes.symbolic('cidr_text', 'string')
+    ip = CA.sym_socketaddr(ex, st, 'ip')       # reuse: V4(ip4)/V6(ip6) payload structure
+    fam = ip.discr
+    ip4 = ip.variants[0][0].fields[0]
+    ip6 = ip.variants[1][0].fields[0]
+    ipaddr = Agg('IpAddr', {}, fam, {0: {0: ip4}, 1: {0: ip6}}, ex.si.enums['IpAddr'])
+    ip_ok = z3.Bool('ip_text_parses')
+    cidr_ok = z3.Bool('cidr_text_parses')
+    C4 = z3.Function('cidr_contains_v4', z3.BitVecSort(32), z3.BoolSort())
+    C6 = z3.Function('cidr_contains_v6', z3.BitVecSort(128), z3.BoolSort())
+    vals = [Agg('milu::Value', {0: s_ip}), Agg('milu::Value', {0: s_cidr})]
+
+    def real_value_of(ctx):
+        v = ctx.ex.deref(ctx.st, ctx.args[0])
+        return C.mk_result(ctx.ex, ok=v)
+
+    def try_into_string(ctx):
+        v = ctx.args[0]
+        return C.mk_result(ctx.ex, ok=v.fields[0])
+
+    def parse_ip(ctx):
+        return Agg('Result', {}, simp(z3.If(ip_ok, BV(0, 64), BV(1, 64))), {0: {0: ipaddr}, 1: {0: Opaque('AddrParseError', 'e')}}, ctx.ex.si.enums['Result'])
+
+    def parse_cidr(ctx):
+        return Agg('Result', {}, simp(z3.If(cidr_ok, BV(0, 64), BV(1, 64))), {0: {0: Opaque('AnyIpCidr', 'the-cidr')}, 1: {0: Opaque('NetworkParseError', 'e')}}, ctx.ex.si.enums['Result'])
+
+    def contains(ctx):
+        a = ctx.ex.deref(ctx.st, ctx.args[1])
+        ctx.st.trace.append(('contains', a))
+        d = a.discr
+        v4 = a.variants.get(0, {}).get(0)
+        v6 = a.variants.get(1, {}).get(0)
+        t4 = C4(v4.fields[0].t) if v4 is not None else z3.BoolVal(False)
+        t6 = C6(z3.Concat(*[v6.fields[0].at(i) for i in range(16)])) if v6 is not None else z3.BoolVal(False)
+        if isinstance(d, int):
+            return Bool(t4 if d == 0 else t6)
+        return Bool(simp(z3.If(d == BV(0, 64), t4, t6)))
+
+    def bool_into_value(ctx):
+        return Agg('milu::Value', {0: ctx.args[0]}, None, {}, None, ty='Boolean')
+    for rx, f in ((r'Value::real_value_of$', real_value_of), (r'<(?:milu::script::)?Value as TryInto<(?:std::string::)?String>>::try_into$', try_into_string),
+                  (r'<impl str>::parse::<(?:std::net::)?IpAddr>$', parse_ip), (r'<impl str>::parse::<(?:cidr::)?AnyIpCidr>$', parse_cidr),
+                  (r'AnyIpCidr::contains$', contains), (r'^<bool as Into<(?:milu::script::)?Value>>::into$', bool_into_value)):
+        ex.overrides.append((re.compile(rx), f))
+    ex.inputs = {'ip_text_parses': ip_ok, 'cidr_text_parses': cidr_ok, 'ip_family': fam, 'ip4': ip4.fields[0], 'ip6': ip6.fields[0]}
+    args = SeqV.from_items(vals, 'Value', 'slice')
+    finals = ex.call_fn(st, fn, [Ref(st.alloc(Opaque('CidrMatch', 'self')), ()), Ref(st.alloc(Opaque('ScriptContext', 'ctx')), ()), Ref(st.alloc(args), ())])
+    ref4 = C4(ip4.fields[0].t)
+    ref6 = C6(z3.Concat(*[ip6.fields[0].at(i) for i in range(16)]))
+    n = 0
+    for s in finals:
+        if s.status != 'returned':
+            continue
+        r = s.ret
+        ok, v = _ok_payload(r)
+        ex.prove(s, 'C02/cidr_match/never-fails-on-string-arguments', ok)
+        if v is None or not isinstance(v, Agg) or not isinstance(v.fields.get(0), Bool):
+            continue
+        n += 1
+        exp = z3.And(ip_ok, cidr_ok, z3.If(fam == BV(0, 64), ref4, ref6))
+        ex.prove(s, 'C02/cidr_match/verdict-is-containment-of-the-parsed-address-in-the-parsed-prefix', v.fields[0].t == exp)
+    if n == 0:
+        ck.add('C02/cidr_match/reachability', 'vacuous', 'no path returned a boolean')
+    ck.absorb(ex, 'CidrMatch::call', finals)
+    ck.bounds['cidr_match'] = 'any IPv4/IPv6 address value, any prefix (opaque), both parse outcomes; containment itself is the cidr crate\'s (trusted)'
+
+
+def cidr_replay_plan(ob):
+    f = ob.finding
+    if f is None or not ob.label.startswith('C02/cidr_match/'):
+        return None
+    i = f.inputs
+    import ipaddress
+    try:
+        if i.get('ip_family', 0) == 0:
+            ip = ipaddress.IPv4Address(i.get('ip4', 0))
+        else:
+            ip = ipaddress.IPv6Address(bytes.fromhex(i.get('ip6', {}).get('hex', '00' * 16)))
+    except Exception:
+        return None
+    full = 32 if ip.version == 4 else 128
+    cidrs = ['%s/%d' % (ip, full), '0.0.0.0/0', '::/0', '0.0.0.0/8', '::/96', '::ffff:0:0/96', '::1/128', '127.0.0.0/8']
+    for p in (8, 16, 24, 64, 96, 120):
+        if p < full:
+            cidrs.append(str(ipaddress.ip_network('%s/%d' % (ip, p), strict=False)))
+    case = {'driver': 'cidr_match', 'args': {'ip': str(ip), 'cidrs': cidrs}}
+    return 'script_ext', case, lambda o: bool(o.get('mismatch')) or bool(o.get('panicked'))
